@@ -7,6 +7,7 @@
 #[macro_use]
 pub mod k;
 pub mod spec;
+pub mod xspec;
 pub mod sym;
 #[cfg(kani)]
 pub mod stubs;
@@ -16,9 +17,13 @@ pub mod h;
 #[cfg(feature = "likelysubtags")]
 pub mod lk;
 
+pub mod c01;
 pub mod c02;
+pub mod c03;
+pub mod c04;
 #[cfg(feature = "likelysubtags")]
 pub mod c06;
+pub mod c10;
 pub mod c11;
 pub mod c12;
 pub mod c13;
@@ -31,12 +36,21 @@ pub mod c18;
 /// every harness, for the native replayer
 pub fn all() -> Vec<(&'static str, fn())> {
     let mut v = Vec::new();
+    v.extend_from_slice(c01::LIST);
     v.extend_from_slice(c02::LIST);
+    v.extend_from_slice(c02::bytes::LIST);
+    v.extend_from_slice(c04::LIST);
+    v.extend_from_slice(c04::c05::LIST);
+    v.extend_from_slice(c03::LIST);
+    v.extend_from_slice(c03::u::LIST);
+    v.extend_from_slice(c03::t::LIST);
+    v.extend_from_slice(c03::x::LIST);
     #[cfg(feature = "likelysubtags")]
     {
         v.extend_from_slice(c06::LIST);
         v.extend_from_slice(c06::c07::LIST);
     }
+    v.extend_from_slice(c10::LIST);
     v.extend_from_slice(c11::LIST);
     v.extend_from_slice(c12::LIST);
     v.extend_from_slice(c13::LIST);
